@@ -93,7 +93,31 @@ func (x *Exec) call(st *State, c *ssa.Call) bool {
 		return true
 	}
 	if !x.prog.inScope(callee) || len(callee.Blocks) == 0 {
-		fr.regs[c] = x.externCall(st, c, callee, args)
+		ename := fullName(callee)
+		if x.fc != nil && len(st.frames) == 1 {
+			if cls := x.fc.CallSites[ename]; len(cls) > 0 {
+				senv := x.contractEnv(st, nil, st.entry)
+				x.bindLocals(senv, st.top(), nil)
+				for i, a := range args {
+					senv.vars[fmt.Sprintf("$%d", i)] = a
+				}
+				n := x.callOrdinal(c)
+				for _, cl := range cls {
+					x.assert(st, fmt.Sprintf("site:call:%s#%d:%s", ename, n, cl.Label), senv.evalBool(cl.Expr), cl.Text, c.Pos())
+				}
+			}
+		}
+		res := x.externCall(st, c, callee, args)
+		fr.regs[c] = res
+		if x.fc != nil && len(st.frames) == 1 && len(x.fc.CallGhost[ename]) > 0 {
+			var results []SV
+			if res.K == KTuple {
+				results = res.Fields
+			} else {
+				results = []SV{res}
+			}
+			x.callGhostUpdatesNamed(st, ename, SV{}, args, results)
+		}
 		return true
 	}
 	// inline
@@ -449,6 +473,18 @@ func (x *Exec) applyContract(st *State, c *ssa.Call, callee *ssa.Function, fc *F
 	}
 	env := &CEnv{x: x, vars: vars, cur: st.heap, qn: &x.qn, wmCur: st.wm, wmOld: st.wm, st: st}
 	n := x.callOrdinal(c)
+	if x.fc != nil && len(st.frames) == 1 {
+		if cls := x.fc.CallSites[fc.Key]; len(cls) > 0 {
+			senv := x.contractEnv(st, nil, st.entry)
+			x.bindLocals(senv, st.top(), nil)
+			for i, a := range args {
+				senv.vars[fmt.Sprintf("$%d", i)] = a
+			}
+			for _, cl := range cls {
+				x.assert(st, fmt.Sprintf("site:call:%s#%d:%s", fc.Key, n, cl.Label), senv.evalBool(cl.Expr), cl.Text, c.Pos())
+			}
+		}
+	}
 	for _, r := range fc.Requires {
 		x.assert(st, fmt.Sprintf("pre@%s#%d:%s", fc.Key, n, r.Label), env.evalBool(r.Expr), "precondition of "+fc.Key+": "+r.Text, c.Pos())
 	}
@@ -485,6 +521,9 @@ func (x *Exec) applyContract(st *State, c *ssa.Call, callee *ssa.Function, fc *F
 	}
 	for _, e := range fc.Ensures {
 		st.assume(env2.evalBool(e.Expr))
+	}
+	if x.fc != nil && len(st.frames) == 1 && len(x.fc.CallGhost[fc.Key]) > 0 {
+		x.callGhostUpdatesNamed(st, fc.Key, SV{}, args, results)
 	}
 	switch len(results) {
 	case 0:
@@ -544,6 +583,7 @@ type modItem struct {
 	hi   *CExpr
 	key  string
 	text string
+	full *CExpr // the whole path expression (for paths that cross a pointer field)
 }
 
 func parseModifies(items []string) ([]modItem, error) {
@@ -594,6 +634,7 @@ func parseModifies(items []string) ([]modItem, error) {
 				return nil, err
 			}
 			// p.f.g: base is the leftmost identifier
+			full := e
 			var path []string
 			for e.Kind == "field" {
 				path = append([]string{e.Str}, path...)
@@ -602,7 +643,7 @@ func parseModifies(items []string) ([]modItem, error) {
 			if e.Kind != "id" || len(path) == 0 {
 				return nil, fmt.Errorf("modifies %q: want p.field", it)
 			}
-			out = append(out, modItem{kind: "field", base: e, path: path, text: it})
+			out = append(out, modItem{kind: "field", base: e, path: path, text: it, full: full})
 		}
 	}
 	return out, nil
@@ -615,7 +656,14 @@ type license struct {
 	spans []licSpan // E-keys
 }
 type licSpan struct {
-	id, lo, hi *Term // absolute index range [lo,hi) within array id
+	id, lo, hi *Term // absolute index range [lo,hi) within array id; lo == nil: the whole row
+}
+
+func (sp licSpan) covers(r, j *Term) *Term {
+	if sp.lo == nil {
+		return Eq(r, sp.id)
+	}
+	return And(Eq(r, sp.id), Le(sp.lo, j), Lt(j, sp.hi))
 }
 
 // modLicenses evaluates the modifies clause of fn in the given (pre-)state.
@@ -664,7 +712,21 @@ func (x *Exec) modLicenses(fc *FuncContract, fn *ssa.Function, vars map[string]S
 			}
 			var path []int
 			t := pt.Elem()
-			for _, name := range it.path {
+			for pi, name := range it.path {
+				if pp, isPtr := t.Underlying().(*types.Pointer); isPtr && it.full != nil {
+					// the path crosses a pointer field: the object written is the one that pointer refers to (in the pre-state)
+					pre := it.full
+					for k := len(it.path) - 1; k >= pi; k-- {
+						pre = pre.X
+					}
+					p = env.eval(pre)
+					if p.K != KRef || p.T == nil {
+						x.fail("modifies %s: %s is not a heap pointer", it.text, pre)
+					}
+					pt = pp
+					t = pp.Elem()
+					path = nil
+				}
 				stt, ok := t.Underlying().(*types.Struct)
 				if !ok {
 					x.fail("modifies %s: %s is not a struct", it.text, t)
@@ -691,9 +753,8 @@ func (x *Exec) modLicenses(fc *FuncContract, fn *ssa.Function, vars map[string]S
 				x.fail("modifies %s: not a map", it.text)
 			}
 			x.registerMapKeys(mv.Ty)
-			huge := BigC(bigPow2(200))
 			for _, k := range mapHeapKeys(mv.Ty) {
-				get(k).spans = append(get(k).spans, licSpan{id: mv.T, lo: Neg(huge), hi: huge})
+				get(k).spans = append(get(k).spans, licSpan{id: mv.T})
 			}
 		case "elems":
 			s := env.eval(it.base)
@@ -760,7 +821,7 @@ func (x *Exec) havocModifies(st *State, callee *ssa.Function, fc *FuncContract, 
 			j := Var(x.freshName("j!fr"), SInt)
 			var isLic []*Term
 			for _, sp := range l.spans {
-				isLic = append(isLic, And(Eq(r, sp.id), Le(sp.lo, j), Lt(j, sp.hi)))
+				isLic = append(isLic, sp.covers(r, j))
 			}
 			st.assume(Forall([]*Term{r}, Implies(Lt(r, preWM), Forall([]*Term{j}, Implies(Not(Or(isLic...)),
 				Eq(Select(Select(nh, r), j), Select(Select(old, r), j)))))))
@@ -788,7 +849,7 @@ func (x *Exec) frameFormula(k string, cur, init *Term, l *license, entryWM *Term
 	var isLic []*Term
 	if l != nil {
 		for _, sp := range l.spans {
-			isLic = append(isLic, And(Eq(r, sp.id), Le(sp.lo, j), Lt(j, sp.hi)))
+			isLic = append(isLic, sp.covers(r, j))
 		}
 	}
 	return Forall([]*Term{r}, Implies(And(Le(IntC(0), r), Lt(r, entryWM)),
